@@ -5,6 +5,7 @@ import GenlmModel.Model.Norm
 import GenlmModel.Model.Mask
 import GenlmModel.Model.WfsaOps
 import GenlmModel.Model.WfsaOps2
+import GenlmModel.Model.FstOps
 import GenlmModel.Model.Cert
 import GenlmModel.Model.Linear
 import GenlmModel.Generated.Semiring
@@ -92,6 +93,53 @@ def opPn (j : Json) : E Json := do
   let xs ← (← getArr (← getField j "xs")).mapM sxList
   pure (Json.mkObj [("vals", .arr (xs.map fun x => Wt.toJson (PNtab A n x)).toArray),
                     ("half", .arr (xs.map fun x => Wt.toJson (PNtab A (n / 2) x)).toArray)])
+
+/-- {"op":"tpn","fst":…,"n":N,"pairs":[[x,y]…]} → `TPN T n x y` and `TPN T (n/2) x y` -/
+def opTpn (j : Json) : E Json := do
+  let T : FST Sx Sx K ← fstOfJson (← getField j "fst")
+  let n ← getNat (← getField j "n")
+  let ps ← (← getArr (← getField j "pairs")).mapM fun e => do
+    match ← getArr e with
+    | [x, y] => pure ((← sxList x), (← sxList y))
+    | _ => throw "bad pair"
+  pure (Json.mkObj [("vals", .arr (ps.map fun p => Wt.toJson (TPNtab T n p.1 p.2)).toArray),
+                    ("half", .arr (ps.map fun p => Wt.toJson (TPNtab T (n / 2) p.1 p.2)).toArray)])
+
+def pairStateTag : PairState → Sx
+  | .inl n => .i n
+  | .inr (i, k) => Sx.tup [.i i, .i k]
+
+/-- {"op":"fst_op","name":…,"f":fst,"g":fst,…} → mirror models of fst.py -/
+def opFstOp (j : Json) : E Json := do
+  let name ← getStr (← getField j "name")
+  match name with
+  | "from_pairs" => do
+      let ps ← (← getArr (← getField j "pairs")).mapM fun e => do
+        match ← getArr e with
+        | [x, y] => pure ((← sxList x), (← sxList y))
+        | _ => throw "bad pair"
+      let T : FST PairState Sx K := FST.fromPairs ps
+      pure (fstToJson ⟨T.start.map fun s => (pairStateTag s.1, s.2), T.stop.map fun s => (pairStateTag s.1, s.2),
+        T.arcs.map fun e => ⟨pairStateTag e.src, e.inp, e.out, pairStateTag e.dst, e.w⟩⟩)
+  | _ => do
+  let F : FST Sx Sx K ← fstOfJson (← getField j "f")
+  match name with
+  | "transpose" => pure (fstToJson F.transpose)
+  | "project0" => pure (wfsaToJson (F.project false))
+  | "project1" => pure (wfsaToJson (F.project true))
+  | "composeL" => do
+      let G : FST Sx Sx K ← fstOfJson (← getField j "g")
+      let C := F.compose G
+      let tag : (Sx × Nat) × Sx → Sx := fun s => Sx.tup [Sx.tup [s.1.1, .i s.1.2], s.2]
+      pure (fstToJson ⟨C.start.map fun s => (tag s.1, s.2), C.stop.map fun s => (tag s.1, s.2),
+        C.arcs.map fun e => ⟨tag e.src, e.inp, e.out, tag e.dst, e.w⟩⟩)
+  | "composeR" => do
+      let G : FST Sx Sx K ← fstOfJson (← getField j "g")
+      let C := F.compose' G
+      let tag : Sx × (Nat × Sx) → Sx := fun s => Sx.tup [s.1, Sx.tup [.i s.2.1, s.2.2]]
+      pure (fstToJson ⟨C.start.map fun s => (tag s.1, s.2), C.stop.map fun s => (tag s.1, s.2),
+        C.arcs.map fun e => ⟨tag e.src, e.inp, e.out, tag e.dst, e.w⟩⟩)
+  | _ => throw s!"unknown fst op {name}"
 
 def sumTag : Sx ⊕ Sx → Sx
   | .inl i => Sx.tup [.i 0, i]
@@ -325,6 +373,8 @@ def runOpK [DecidableEq K] [HasInv K] [HasStar K] (op : String) (j : Json) : E J
   | "zn" => opZn (K := K) j
   | "mask" => opMask (K := K) j
   | "pn" => opPn (K := K) j
+  | "tpn" => opTpn (K := K) j
+  | "fst_op" => opFstOp (K := K) j
   | "wfsa_op" => opWfsaOp (K := K) j
   | "wfsa_op2" => opWfsaOp2 (K := K) j
   | "shape" => opShape (K := K) j
@@ -428,6 +478,7 @@ def runOp (j : Json) : E Json := do
       | "wn" => opWn (K := Float) j
       | "zn" => opZn (K := Float) j
       | "pn" => opPn (K := Float) j
+      | "tpn" => opTpn (K := Float) j
       | "lift_expectation" => opLiftExpF j
       | _ => throw s!"op {op} not available over F64")
   | "Expectation" => (match op with
